@@ -158,6 +158,19 @@ def aligned(cst, bst):
           yield from aligned(c, b)
 
 
+def dynamic_key_order_differs(rst, ost):
+  """Two aligned dict specs that both have >= 2 dynamic (StrKey) fields, listed in different orders:
+  keys are resolved to the FIRST matching StrKey in declaration order, but Schema.is_compatible
+  compares the fields key by key (finding F110)."""
+  for r, o in aligned(rst, ost):
+    if r[0] == 'dict' and o[0] == 'dict' and r[1] is not None and o[1] is not None:
+      rk = [f[0] for f in r[1] if f[0][0] == 'k']
+      ok = [f[0] for f in o[1] if f[0][0] == 'k']
+      if len(rk) >= 2 and len(ok) >= 2 and rk != ok and sorted(map(str, rk)) == sorted(map(str, ok)):
+        return True
+  return False
+
+
 def dict_default_gap(rst, ost):
   """Receiver and other have a dict field of the same key where only the other's has a default."""
   for r, o in aligned(rst, ost):
@@ -639,9 +652,12 @@ class C04(Prop):
       return 'dict-field-default-ignored'
     if union_int_and_float(rst) and any(x[0] in ('i', 'b', 'f', 's') for x in vat):
       return 'union-dispatches-by-type'
+    if dynamic_key_order_differs(rst, ost):
+      return 'dict-dynamic-key-order-ignored'
     return '%s<-%s' % (rst[0], ost[0])
 
   def classify_ext(self, sc, sb, adesc, v):
+    # (dynamic-key order: see dynamic_key_order_differs)
     vat = atoms_of(v, [])
     if fake_fixed_tuple(sc):
       return 'variable-tuple-becomes-fixed'
